@@ -6,7 +6,10 @@ simkit::interpose_getrandom!();
 mod gnet;
 mod gnode;
 mod gproto;
+mod gsingle;
 
 fn main() {
-    simkit::main_with(vec![gnet::check()]);
+    let mut cs = vec![gnet::check()];
+    cs.extend(gsingle::checks());
+    simkit::main_with(cs);
 }
